@@ -834,3 +834,56 @@ func lemmaC01_cflist_chmask(m0, m1, m2, m3, m4 ChMask) {
 	verifAssert(cp.ChannelMasks[3] == m3, "mask3")
 	verifAssert(cp.ChannelMasks[4] == m4, "mask4")
 }
+
+// ---------------------------------------------------------------------------
+// C05: end-to-end exchange.  Cipher level: decrypting (= encrypting again with the same key,
+// direction, address and 32-bit counter) recovers the plaintext, for every length.
+// ---------------------------------------------------------------------------
+
+func bytesEqualIdx(a, b []byte) bool {
+	if len(a) != len(b) {
+		return false
+	}
+	for i := range a {
+		if a[i] != b[i] {
+			return false
+		}
+	}
+	return true
+}
+
+func lemmaC05_frm_cipher(key AES128Key, uplink bool, devAddr DevAddr, fcnt uint32, data []byte) {
+	orig := make([]byte, len(data))
+	copy(orig, data)
+	c, err := EncryptFRMPayload(key, uplink, devAddr, fcnt, data)
+	verifAssert(err == nil, "encrypts")
+	if err != nil {
+		return
+	}
+	d, err2 := EncryptFRMPayload(key, uplink, devAddr, fcnt, c)
+	verifAssert(err2 == nil, "decrypts")
+	if err2 != nil {
+		return
+	}
+	verifAssert(bytesEqualIdx(d, orig), "plaintext-recovered")
+}
+
+// FOpts (LoRaWAN 1.1): the same for the single-block FOpts cipher, all four counter / direction modes.
+func lemmaC05_fopts_cipher(key AES128Key, aFCntDown, uplink bool, devAddr DevAddr, fcnt uint32, data []byte) {
+	if len(data) > 15 {
+		return
+	}
+	orig := make([]byte, len(data))
+	copy(orig, data)
+	c, err := EncryptFOpts(key, aFCntDown, uplink, devAddr, fcnt, data)
+	verifAssert(err == nil, "encrypts")
+	if err != nil {
+		return
+	}
+	d, err2 := EncryptFOpts(key, aFCntDown, uplink, devAddr, fcnt, c)
+	verifAssert(err2 == nil, "decrypts")
+	if err2 != nil {
+		return
+	}
+	verifAssert(bytesEqualIdx(d, orig), "plaintext-recovered")
+}
